@@ -9,7 +9,7 @@ TB = ("TLC 1.8 and the hand-written specification (spec/*.tla); the conformance 
       "inputs by the small-scope arguments of DESIGN.md 2.5")
 
 CHECKS = {
- "C18": ("model_checking", "TLC explores every interleaving of the Sharing model (threads x shared immutable block x atomic count x guarded static, micro-step granularity): no read of freed storage, count = live handles, freed exactly once, every thread's values equal its sequential values, termination under weak fairness; the three negative controls (non-atomic count, unguarded static, shared scratch) must be rejected. On the code: 2..16 threads run the TLC-generated cases simultaneously on shared const operands/operators/forms; per-thread logs must be identical to the sequential log (exact scalar as text, double as bit patterns), logs are validated by TLC against the sequential contracts, use counts must return to the pre-spawn values, and the ThreadSanitizer build observes races.", "5 C18",
+ "C18": ("model_checking", "TLC explores every interleaving of the Sharing model (threads x shared immutable block x atomic count x guarded static, micro-step granularity): no read of freed storage, count = live handles, freed exactly once, every thread's values equal its sequential values, termination under weak fairness; the three negative controls (non-atomic count, unguarded static, shared scratch) must be rejected. On the code: 2..16 threads run the TLC-generated cases simultaneously on shared const operands/operators/forms/generators, in a free-running and in a lockstep schedule (neighbouring cases - same instantiation, different data - at the very same time); per-thread logs must be identical to the sequential log (exact scalar as text, double as bit patterns), logs are validated by TLC against the sequential contracts, use counts must return to the pre-spawn values, and the ThreadSanitizer build observes races.", "5 C18",
          "TLA+ model of the sharing protocol (all interleavings, liveness, negative controls) + threaded replay of TLC-generated cases with per-thread trace validation and TSan observer"),
  "C20": ("other", "TLC checks the diffusion solver's skeleton (move out first/last, erase first, remove last, assemble) against std::vector's preconditions for every basis size and must reject the pinned erase(end()); the diffusion algorithm itself is run inside the specification at reduced order with an exact solve (ExamplesAlg: end values, scale invariance, straight line); the repository's own example objects are run on TLC-enumerated admissible inputs in a plain build and under ASan/UBSan/_GLIBCXX_DEBUG, and the stated contracts (boundary values, scale invariance, straight line, eigenvalue shift, n+1/2, -1/n^2) are compared with tolerance.", "5 C20",
          "TLA+ skeleton of the example algorithm checked by TLC + conformance runs of the example objects on TLC-enumerated inputs with sanitizer observers and tolerances"),
@@ -17,7 +17,7 @@ CHECKS = {
          "TLA+ index/bounds invariants checked by TLC + replay of all TLC-generated executions under sanitizer observers + trace validation"),
  "C12": ("model_checking", "TLC emits abscissa windows of uniform and strongly non-uniform grids, ordinates, orders 1..3(4) and boundary sets (default, one-sided, mixed, invalid); the real interpolate<Rat, order, exact Gauss solver> runs every case and TLC accepts the returned spline iff InterpPost holds exactly (node values from both adjacent pieces, continuity of derivatives 1..order-1, every boundary row) and the ISolver protocol was followed; a singular report is accepted only outside the sets shown uniquely solvable. The bundled dense (Eigen) route runs the same inputs in float, double and long double; the residual of every interpolation condition, evaluated in __float128, must stay within 2^20 eps (||M|| ||x|| + ||b||).", "5 C12",
          "TLA+ relational post-condition + TLC-generated cases + exact-solver execution of the real routine + trace validation"),
- "C16": ("exploration", "For float, double and long double the real library runs the TLC-generated well-scaled dyadic cases (generator, evaluation, + - *, operator application, linear and bilinear forms); TLC supplies the exact value E and the abs-mode magnitude S (checked by TLC to dominate |E|); the harness evaluates |F-E| <= 2^20 eps S in __float128 and TLC judges the recorded verdicts; builds with and without BSPLINE_ADD_TEST_CHECKS must agree bit for bit (thorough: -O0/-O3/clang too).", "5 C16",
+ "C16": ("exploration", "For float, double and long double the real library runs the TLC-generated well-scaled dyadic cases (generator, evaluation, + - *, operator application, linear and bilinear forms); TLC supplies the exact value E and the abs-mode magnitude S (checked by TLC to dominate |E|); the harness evaluates |F-E| <= 2^20 eps S in __float128 and TLC judges the recorded verdicts; a second pass repeats every case with full-mantissa perturbed coefficients (so that rounding really happens) against the exact-scalar run of the same call, with magnitude 2 S; inputs include a grid far from the origin relative to its spacing, an interval centred at 0 and operand orders up to 6; builds with and without BSPLINE_ADD_TEST_CHECKS must agree bit for bit (thorough: -O0/-O3/clang too).", "5 C16",
          "TLC-generated cases with exact reference and magnitude from the TLA+ spec + floating-point replay of the real code against the stated relation"),
  "C17": ("exploration", "integrate<n> (n = 1..6, polynomial weights of degree 0..3, double and long double) on TLC-generated spline pairs on both sides of the exactness bound; TLC supplies the exact weighted integral over the common intervals and its magnitude; the relation is required where 2n-1 >= o1+o2+d, only 'zero when disjoint' elsewhere.", "5 C17",
          "TLC-generated cases with exact integral from the TLA+ spec + floating-point replay against the stated relation"),
